@@ -49,8 +49,269 @@ def message_element(fam, body):
     return b[0] if len(b) else None
 
 
+def validate_docs(schema, fam, todo):
+    """-> [(what, ok, error, doc)]"""
+    out = []
+    for what, doc in todo:
+        try:
+            el = message_element(fam, doc)
+            if el is None:
+                continue
+            ok = schema.validate(el)
+            err = str(schema.error_log.last_error) if not ok else ''
+        except Exception as e:
+            ok, err = False, '%s: %s' % (type(e).__name__, e)
+        out.append((what, bool(ok), err, doc))
+    return out
+
+
+def universe_class(c):
+    u = c['u']
+    nss = [u['ns'][k] for k in 'PQR']
+    shape = 'all-same' if len(set(nss)) == 1 else 'all-different' if len(set(nss)) == 3 else 'two'
+    return 'pq=%s,pr=%s,qr=%s,direct=%s,ns=%s' % (u['pq'], u['pr'], u['qr'], u['direct'], shape)
+
+
+def _observe_universe(job):
+    from .. import schemaworld as W
+    from ..loopback import LoopbackClient
+    c, fam, wd = job
+    wd = os.path.join(wd, str(os.getpid()))
+    obs = {'compiled': True, 'docs': [], 'emitted': [], 'error': ''}
+    try:
+        w = W.World(c, fam, 'soft')
+        doc = W.wsdl(w.wsgi)
+        obs['docs'] = W.describe(doc)
+    except Exception as e:
+        obs['compiled'] = False
+        obs['error'] = 'interface: %s: %s' % (type(e).__name__, e)
+        return {'u': c['u'], 'case': c, 'fam': fam, 'obs': obs}
+    try:
+        schema = compile_schema(w.wsgi, wd, 'tns')
+    except Exception as e:
+        schema = None
+        obs['compiled'] = False
+        obs['error'] = '%s: %s' % (type(e).__name__, str(e)[:300])
+    if schema is not None:
+        env, body = E.request(w.gen, fam, 'f', w.call_args())
+        res = E.send(w.wsgi, env, body)
+        todo = [('spyne-response', res['body']), ('conformant-request', body)]
+        try:
+            cl = LoopbackClient(w.wsgi, w.app)
+            getattr(cl.service, 'f')(*[W.instance(w.gen, t, v) for _, t, v in w.call_args()])
+            todo.append(('spyne-client-request', cl.rp.last['request']))
+        except Exception as e:
+            obs['emitted'].append({'what': 'spyne-client-request', 'ok': False, 'error': '%s: %s' % (type(e).__name__, e), 'doc': ''})
+        for what, ok, err, d in validate_docs(schema, fam, todo):
+            obs['emitted'].append({'what': what, 'ok': ok, 'error': err[:300], 'doc': d[:700].decode('utf8', 'replace')})
+        # Spyne's own schema validator must accept the conformant request too
+        try:
+            w2 = W.World(c, fam, 'lxml')
+            del w2.seen[:]
+            res2 = E.send(w2.wsgi, *E.request(w2.gen, fam, 'f', w2.call_args()))
+            obs['emitted'].append({'what': 'conformant-request-under-validator-lxml', 'ok': len(w2.seen) == 1,
+                                   'error': res2['body'][:300].decode('utf8', 'replace') if len(w2.seen) != 1 else '', 'doc': ''})
+        except Exception as e:
+            obs['compiled'] = False
+            obs['error'] = 'validator=lxml: %s: %s' % (type(e).__name__, str(e)[:300])
+    return {'u': c['u'], 'case': c, 'fam': fam, 'obs': obs}
+
+
+def universes(ctx):
+    """M1 SpyneSchema (add_class walk = closed forms, Closed); M3 real schemas judged by TraceSchema."""
+    from .. import schemaworld as W
+    from ..loopback import LoopbackClient
+    r = tlc.run('SpyneSchema', 'MCSchema.cfg', ctx.work, workers=8)
+    if not r.ok:
+        raise tlc.TlcError('SpyneSchema: %s violated in the design model\n%s' % (r.violated, r.stdout[-1500:]))
+    rd = tlc.run('SpyneSchema', 'MCSchemaDev.cfg', ctx.work, workers=8)
+    if rd.violated != 'Closed':
+        raise tlc.TlcError('SpyneSchema: the SkipRegistered deviation is not detected (vacuous Closed?)')
+    ctx.cov_add(states=r.distinct, transitions=r.generated)
+    cases = W.export(ctx)
+    if ctx.quick:
+        cases = [c for i, c in enumerate(cases) if (i + ctx.seed) % 4 == 0]
+    wd = os.path.join(ctx.work, 'xsdu')
+    import multiprocessing
+    jobs = [(c, 'soap11' if (i % 2) else 'xml', wd) for i, c in enumerate(cases)]
+    with multiprocessing.get_context('fork').Pool(12) as pool:
+        recs = pool.map(_observe_universe, jobs, chunksize=8)
+    shutil.rmtree(wd, ignore_errors=True)
+    tf = os.path.join(ctx.work, 'schema_traces.ndjson')
+    with open(tf, 'w') as f:
+        for rec in recs:
+            o = rec['obs']
+            f.write(json.dumps({'u': rec['u'], 'obs': {'compiled': o['compiled'], 'docs': o['docs'],
+                                                       'emitted': [{'ok': e['ok']} for e in o['emitted']]}}) + '\n')
+    cfgt = pc.write_cfg(os.path.join(ctx.work, 'tracesch.cfg'), ['INIT Init', 'NEXT Next', 'CONSTRAINT Report', 'CONSTANT Deviations = {}',
+                                                                 'CHECK_DEADLOCK FALSE'])
+    rt = tlc.run('TraceSchema', cfgt, ctx.work, env={'TRACE_FILE': tf}, timeout=1800)
+    seen = {}
+    for p in rt.prints:
+        if p and p[0] == 'V':
+            seen[p[1]] = (set(p[2]), p[3])
+    if len(seen) != len(recs):
+        raise tlc.TlcError('TraceSchema evaluated %d of %d\n%s' % (len(seen), len(recs), rt.stdout[-1500:]))
+    nbad = 0
+    extra = 0
+    for i, rec in enumerate(recs):
+        fails, exact = seen[i + 1]
+        if not exact and not fails:
+            extra += 1
+        if not fails:
+            continue
+        nbad += 1
+        o = rec['obs']
+        bad = [e for e in o['emitted'] if not e['ok']]
+        ctx.violation('%s|%s' % ('+'.join(sorted(fails)), universe_class(rec['case'])),
+                      'published schema of universe %s: %s %s' % (json.dumps(rec['u'], sort_keys=True), sorted(fails),
+                                                                  o['error'] or (bad[0]['what'] + ': ' + bad[0]['error'] if bad else '')),
+                      {'universe': rec['u'], 'family': rec['fam'], 'documents': o['docs'], 'error': o['error'], 'not_valid': bad[:2]})
+    if extra:
+        ctx.notes.append('%d universes import more namespaces than the closed form asks for (harmless; model drift, not a verdict)' % extra)
+    ctx.cov_add(universes=len(recs), universes_ok=len(recs) - nbad)
+    ctx.sample({'universe': recs[0]['u'], 'documents': recs[0]['obs']['docs']})
+    return len(recs)
+
+
+OUT_TEXT = {'lt_amp': 'a<b&c', 'sp_lead': '  x '}
+
+
+def native_out(c):
+    """the native value user code would return for a case with valid = TRUE (or SKIP)"""
+    import decimal
+    from .. import valcases as V
+    g = c['group']
+    if g == 'out':
+        ty = c['ty']
+        if ty == 'ByteArray': return [bytes(c['bytes'])]
+        if ty == 'Decimal': return decimal.Decimal(c['lit'])
+        if ty == 'Double': return float(c['lit'])
+        if ty == 'Integer': return int(c['lit'])
+        return OUT_TEXT[c['lit']]
+    if g == 'big':
+        return int(c['lit'])
+    if g == 'lex':
+        try:
+            return S.leaf_native(c['ty'], c['text'].replace('+5', '5') if c['ty'] == 'Integer' else c['text'])
+        except Exception:
+            return V.SKIP
+    if g == 'nil':
+        if c['how'] != 'value' and not (c['nillable'] if c['mino'] > 0 else True):
+            return V.SKIP           # None is not a conformant value of a mandatory non-nillable member
+        return None if c['how'] != 'value' else V.value_of(c, 'json')
+    if g == 'objarr':
+        return V.SKIP
+    v = V.value_of(c, 'json')
+    if g == 'occ' and c['maxo'] == 1 and v is not None:
+        return v[0] if len(v) == 1 else V.SKIP          # a non-repeated member holds one value
+    return v
+
+
+def out_type(c):
+    from .. import valcases as V
+    if c['group'] == 'out':
+        f = {} if c['facet'] == 'none' else {'encoding': c['facet']}
+        return {'k': 'prim', 'p': c['ty'], 'facets': f}
+    return V.type_of(c)
+
+
+def out_shape(pos, T, v):
+    if pos == 'ret':
+        return T, v
+    if pos == 'field':
+        return {'k': 'obj', 'name': 'C', 'fields': [['v', T], ['w', {'k': 'prim', 'p': 'Integer'}]]}, {'v': v, 'w': 1}
+    if pos == 'array':
+        return {'k': 'arr', 'of': T}, [v, v]
+    if pos == 'attr':
+        return {'k': 'obj', 'name': 'C', 'fields': [['v', {'k': 'attr', 'of': T}], ['w', {'k': 'prim', 'p': 'Integer'}]]}, {'v': v, 'w': 1}
+
+
+def outputs(ctx):
+    """every conformant value, returned by a real service at every position: the response against the published schema"""
+    from spyne import Application
+    from spyne.server.wsgi import WsgiApplication
+    from .. import valcases as V, gen as G, schemaworld as W
+    d = V.export(ctx)
+    cases = [c for c in d['cases'] if c['valid']] + d['outcases']
+    fams = ('xml',) if ctx.quick else ('xml', 'soap11', 'soap12')
+    apps = {}
+    wd = os.path.join(ctx.work, 'xsdo')
+    recs = []
+    for c in cases:
+        v = native_out(c)
+        if v is V.SKIP:
+            continue
+        T = out_type(c)
+        if c['group'] in ('occ', 'nil'):
+            poss = ['field']
+        elif c['group'] == 'out' and c['ty'] == 'ByteArray' or T.get('k') == 'enum':
+            poss = ['ret', 'field', 'array', 'attr']
+        else:
+            poss = ['ret', 'field', 'array', 'attr']
+        for pos in poss:
+            if pos in ('array', 'attr') and v is None:
+                continue
+            for fam in fams:
+                key = (json.dumps(T, sort_keys=True, default=str), pos, fam)
+                a = apps.get(key)
+                rt, rv = out_shape(pos, T, v)
+                if a is None:
+                    holder = [None]
+                    g = G.Gen()
+                    try:
+                        svc = G.make_service(g, [{'name': 'f', 'args': [], 'ret': rt, 'returns': lambda args, holder=holder: holder[0]}], [])
+                        inp, outp = E.protocols(fam, validator='soft')
+                        w = WsgiApplication(Application([svc], 'tns', in_protocol=inp, out_protocol=outp))
+                        schema = compile_schema(w, wd, 'tns')
+                        a = (g, w, schema, holder, '')
+                    except Exception as e:
+                        a = (g, None, None, None, '%s: %s' % (type(e).__name__, str(e)[:300]))
+                    apps[key] = a
+                g, w, schema, holder, err = a
+                rec = {'case': c, 'pos': pos, 'fam': fam, 'valid': True}
+                if schema is None:
+                    rec.update(emitted=False, error='schema: ' + err, doc='')
+                else:
+                    holder[0] = W.instance(g, rt, rv)
+                    res = E.send(w, *E.request(g, fam, 'f', []))
+                    (what, ok, err, doc), = validate_docs(schema, fam, [('spyne-response', res['body'])]) or [('spyne-response', False, 'empty body', b'')]
+                    rec.update(emitted=ok, error=err, doc=doc[:600].decode('utf8', 'replace'))
+                recs.append(rec)
+    shutil.rmtree(wd, ignore_errors=True)
+    tf = os.path.join(ctx.work, 'emitted_traces.ndjson')
+    with open(tf, 'w') as f:
+        for r in recs:
+            f.write(json.dumps({'valid': True, 'obs': {'emitted': r['emitted']}}) + '\n')
+    cfgt = pc.write_cfg(os.path.join(ctx.work, 'traceval2.cfg'), ['INIT Init', 'NEXT Next', 'CONSTRAINT Report', 'CHECK_DEADLOCK FALSE'])
+    rt_ = tlc.run('TraceValidate', cfgt, ctx.work, env={'TRACE_FILE': tf}, timeout=1800)
+    bad = {p[1] - 1 for p in rt_.prints if p and p[0] == 'V' and p[2]}
+    n = len({p[1] for p in rt_.prints if p and p[0] == 'V'})
+    if n != len(recs):
+        raise tlc.TlcError('TraceValidate evaluated %d of %d\n%s' % (n, len(recs), rt_.stdout[-1500:]))
+    for i in sorted(bad):
+        r = recs[i]
+        c = r['case']
+        cc = ('%s|%s|%s' % (c['ty'], c['facet'], c['lit'] or 'bytes=%d' % len(c['bytes']))) if c['group'] == 'out' else c05.case_class(c)
+        # the text of a leaf is the leaf writer's business wherever the leaf sits: one class per value
+        where = '' if c['group'] == 'out' and c['ty'] != 'ByteArray' else '|pos=%s' % r['pos']
+        ctx.violation('EmittedInvalid|%s|%s%s' % (c['group'], cc, where),
+                      'the response Spyne writes for the conformant value of %s at %s over %s is not valid against the published schema: %s' % (
+                          c, r['pos'], r['fam'], r['error'][:300]), {'case': c, 'position': r['pos'], 'family': r['fam'], 'response': r['doc'], 'error': r['error']})
+    ctx.cov_add(emitted_values=len(recs), emitted_ok=len(recs) - len(bad), emitting_apps=len(apps))
+    ctx.sample({'emitted': {'case': recs[0]['case'], 'position': recs[0]['pos'], 'response': recs[0]['doc'][:300]}})
+    return len(recs)
+
+
 def run(ctx):
     from ..loopback import LoopbackClient
+    import time
+    t0 = time.time()
+    nuni = universes(ctx)
+    t1 = time.time()
+    nout = outputs(ctx)
+    t2 = time.time()
+    ctx.notes.append('wall: universes %.0fs, emitted values %.0fs' % (t1 - t0, t2 - t1))
     cases = S.export(ctx)
     sub = [c for i, c in enumerate(cases) if c['id'] != 'T2' or (i + ctx.seed) % (6 if ctx.quick else 1) == 0]
     n = 0
@@ -109,13 +370,16 @@ def run(ctx):
             ctx.violation('schema-does-not-compile|%s|%s' % (c['group'], c05.case_class(c)),
                           'validator=lxml cannot be set up for %s: %s' % (c, r['lxml_error'][:200]), {'case': c})
             continue
-        if 'SchemaDisagrees' not in cl:
+        cl = cl & {'SchemaDisagrees', 'ValidatorsDisagree'}
+        if not cl:
             continue
         nf += 1
-        ctx.violation('SchemaDisagrees|%s|%s|pos=%s|lxml=%s,soft=%s,valid=%s' % (
-            c['group'], c05.case_class(c), r['pos'], r['lxml']['ran'], r['obs']['ran'], c['valid']),
-            'schema validation (%s) and Valid (%s) disagree for %s at %s over %s (soft: %s)' % (
-                'accepts' if r['lxml']['ran'] else 'rejects', c['valid'], c, r['pos'], r['fam'], 'accepts' if r['obs']['ran'] else 'rejects'),
+        where = 'pos=%s|lxml=%s,soft=%s,valid=%s' % (r['pos'], r['lxml']['ran'], r['obs']['ran'], c['valid'])
+        if c['group'] == 'lex':
+            where = 'lxml=%s,soft=%s,valid=%s' % (r['lxml']['ran'], r['obs']['ran'], c['valid'])     # the leaf parser's business wherever the leaf sits
+        ctx.violation('%s|%s|%s|%s' % ('+'.join(sorted(cl)), c['group'], c05.case_class(c), where),
+            'schema validation %s, soft validation %s, Valid = %s for %s at %s over %s' % (
+                'accepts' if r['lxml']['ran'] else 'rejects', 'accepts' if r['obs']['ran'] else 'rejects', c['valid'], c, r['pos'], r['fam']),
             {'case': c, 'position': r['pos'], 'family': r['fam'],
              'lxml': {k: (v.decode('utf8', 'replace') if isinstance(v, bytes) else v) for k, v in r['lxml'].items()}})
     ctx.level = 'exploration'
